@@ -42,6 +42,8 @@ def run(ctx):
     ctx.rule('C09.ITER', lambda: rule_iter(ctx), 3)
     # "reaches the exact view of C08": the clauses of the view that do not depend on the refresh being quiet
     ctx.rule('C09.VIEW', lambda: c08.rule_liveflag(ctx) + c08.rule_sign(ctx) + c08.rule_fee(ctx), 4)
+    ctx.rule('C09.VIEW2', lambda: c08.rule_positional(ctx) + c08.rule_merge(ctx), 4)
+    ctx.rule('C09.FIXPOINT', lambda: c08.rule_fixpoint(ctx, 'C09.FIXPOINT'), 2)
 
 
 def rule_atomic(ctx):
